@@ -17,7 +17,8 @@ F_TOL = mpf(10) ** -9
 
 class Mode:
     """mp: 60-digit object vectors; f64: float64 object vectors; numpy / awkward: the same laws on one-element arrays
-    (every public call then goes through the array backend's dispatch, broadcasting and result wrapping)"""
+    (every public call then goes through the array backend's dispatch, broadcasting and result wrapping); record: on
+    Awkward vector records taken from the middle of an array"""
 
     def __init__(self, name):
         self.name = name
@@ -31,6 +32,13 @@ class Mode:
         if self.name == "awkward":
             mom = l.momentum and any(B.MOM_SPELL[x] for x in R.field_names(l.system))
             return B.mk_awk(l.system, [l.f64()[0]], mom)
+        if self.name == "record":
+            # an Awkward vector *record* that is not the first element of its array (decoys with other values around it)
+            mom = l.momentum and any(B.MOM_SPELL[x] for x in R.field_names(l.system))
+            row = l.f64()[0]
+            d1 = tuple(c * 0.5 + (0.25 if n not in ("phi", "theta") else 0.0) for c, n in zip(row, R.field_names(l.system)))
+            d2 = tuple(c * 0.75 + (0.5 if n not in ("phi", "theta") else 0.0) for c, n in zip(row, R.field_names(l.system)))
+            return B.mk_awk(l.system, [d1, row, d2], mom, extra={"charge": [1, -1, 0]})[1]
         return E.mat_obj(l)
 
     def num(self, x):
